@@ -115,9 +115,13 @@ def check_property_file(prop_file: str) -> dict:
 # ---------------------------------------------------------------------------
 def load_known():
     p = VERIF / "known_findings.json"
-    if not p.exists():
-        return []
-    return json.loads(p.read_text())["findings"]
+    out = []
+    if p.exists():
+        out = list(json.loads(p.read_text())["findings"])
+    # per-property fragments written by the property builders before they are folded into known_findings.json
+    for q in sorted((VERIF / "known_findings.d").glob("*.json")) if (VERIF / "known_findings.d").exists() else []:
+        out.extend(json.loads(q.read_text())["findings"])
+    return out
 
 
 def write_replay(prop_id, name, payload) -> Path:
